@@ -222,11 +222,16 @@ def nac_content(d):
     return h(d["born"], d["dielectric"], np.array([d["factor"]]), d.get("method", "gonze-default"))
 
 
-def project_core(ph, s2pp, u2pp, sr_memo):
+def project_core(ph, s2pp, u2pp, sr_memo, building=None):
     """Projection of a real Phonopy object onto the abstract state of
     spec/ApiHistory.tla (without caller handles and copy).  s2pp / u2pp: the
     primitive-cell index of every supercell / unit-cell atom (taken from the
-    pristine object); sr_memo: provenance memo of short-range force constants."""
+    pristine object).  sr_memo: provenance memo of the short-range force
+    constants of the Gonze-Lee class: they are built lazily inside a query, so
+    their bytes are attributed to the (force constants, NAC) contents current
+    at a query during which a DynamicalMatrix object that had none acquired
+    them (building = the kind of the query just run, None for any other
+    operation); bytes that show up any other way count as old."""
     fc = ph._force_constants
     if fc is None:
         layout = "none"
@@ -259,12 +264,17 @@ def project_core(ph, s2pp, u2pp, sr_memo):
                   and dmo._unit_conversion == nac["factor"])
             dnac = "cur" if ok else "old"
         sr = "none"
+        seen_none = sr_memo.setdefault("#dm-without", set())
+        if cls == "gonze" and dmo._Gonze_force_constants is None:
+            seen_none.add(id(dmo))
+            sr_memo.setdefault("#keep", []).append(dmo)  # ids stay unique
         if cls == "gonze" and dmo._Gonze_force_constants is not None:
             key = h(dmo._Gonze_force_constants)
             now = (h(fc) if fc is not None else None, nac_content(nac))
-            if key not in sr_memo:
-                sr_memo[key] = now
-            sr = "cur" if sr_memo[key] == now else "old"
+            if building is not None and (id(dmo) in seen_none or building == "dmq"):
+                sr_memo.setdefault(key, set()).add(now)
+                seen_none.discard(id(dmo))
+            sr = "cur" if now in sr_memo.get(key, ()) else "old"
         dm = dict(on=True, fc=dfc, shared=bool(shared), nac=dnac, cls=cls, sr=sr)
     gvo = ph._group_velocity
     gv = "none" if gvo is None else ("cur" if gvo._dynmat is ph._dynamical_matrix else "stale")
@@ -411,9 +421,9 @@ class Driver:
     def content_fingerprint(self):
         return content_fingerprint(self.ph)
 
-    def abs_state(self):
+    def abs_state(self, building=None):
         ph, w = self.ph, self.w
-        core = project_core(ph, w.s2pp, w.u2pp, self.sr_memo)
+        core = project_core(ph, w.s2pp, w.u2pp, self.sr_memo, building)
         # copy
         if self.cp is None:
             cp = dict(on=False, ok=True, shared=False)
@@ -441,7 +451,13 @@ class Driver:
     def add_handle(self, cls, obj):
         hd = Handle(cls, obj, None)
         hd.belief = self.handle_content(hd)
-        same = [x for x in self.held if x.obj is obj or shares(x.obj, obj)]
+        def linked(x):  # one object, or the dataset dict and the displacement array inside it
+            if x.obj is obj:
+                return True
+            pair = {x.cls, cls}
+            return (pair <= {"dataset_setter", "dataset_getter", "displacements_getter"} and len(pair) == 2
+                    and "displacements_getter" in pair and shares(x.obj, obj))
+        same = [x for x in self.held if linked(x)]
         if same:
             hd.grp = same[0].grp
         else:
@@ -466,7 +482,7 @@ class Driver:
             ev["errtext"] = "%s: %s" % (type(e).__name__, str(e)[:200])
         if before is not None:
             ev["frame"] = self.content_fingerprint() == before
-        ev["obs"] = self.abs_state()
+        ev["obs"] = self.abs_state(op.get("k") if (name == "Query" and not ev["err"]) else None)
         return ev
 
     # setters ---------------------------------------------------------------
